@@ -151,7 +151,7 @@ def run(chk):
             chk.leanchecker(["MambaVerif.Props.C08"])
     if not ok:
         return
-    scope_common.run_scope(chk, ["raise"], "Raise", 60 if thorough else 14, 6 if thorough else 4)
+    scope_common.run_scope(chk, ["raise"], "Raise", 60 if thorough else 30, 6 if thorough else 4)
     cases = matrix()
     if not thorough:
         keep = [c for c in cases if "/init/" in c[0] or c[0].startswith(("raise-", "declare/", "declare-list/", "cover-by-list/", "top-level", "after-handle", "inside-arm", "handle-in-arm"))]
